@@ -203,6 +203,9 @@ func (s *vfSticky) event(op vfStickyOp, d *vfDialog, rnd *rand.Rand, expires int
 			extra = append(extra, vfHdr{"Expires", "0"})
 		}
 		code := []int{200, 200, 180, 183}[rnd.Intn(4)]
+		if op.M == "reject" { // an INVITE of the established dialog is rejected: the dialog lives on
+			code = []int{488, 491, 603, 400, 500}[rnd.Intn(5)]
+		}
 		d.cseq = 1
 		s.step(fmt.Sprintf("answer-%d", code), ip, port, s.response(d, code, "INVITE", d.vias, true, extra...))
 	case "indialog":
@@ -391,6 +394,8 @@ func TestVfSticky(t *testing.T) {
 					s.event(vfStickyOp{Op: "notify-term", M: []string{"", "reason"}[rnd.Intn(2)]}, d, rnd, 0)
 				case x == 5 && state[j] == 2:
 					s.event(vfStickyOp{Op: "answer"}, d, rnd, longExp())
+				case x == 6 && state[j] == 2 && d.vias != nil:
+					s.event(vfStickyOp{Op: "answer", M: "reject"}, d, rnd, 0)
 				default:
 					s.event(vfStickyOp{Op: "indialog", M: methods[rnd.Intn(len(methods))]}, d, rnd, 0)
 				}
